@@ -192,7 +192,8 @@ fn template(method: &str, c: &Ctx, rng: &mut Rng) -> Value {
         "eth_getBlockTransactionCountByHash" => json!([c.block_hash]),
         "eth_getLogs" => json!([{"fromBlock": format!("0x{:x}", c.height.saturating_sub(2)), "toBlock": hx, "address": c.contract, "topics": [null, [hex0x(&sha("t"))]]}]),
         "eth_call" | "eth_estimateGas" => json!([call, "latest"]),
-        "eth_callMany" | "eth_estimateGasMany" => json!([[call.clone(), call], null, {"opReturnTxIds": [ZERO_HASH, ZERO_HASH], "bitcoinTxHexes": {}}]),
+        // two calls with 0-3 transaction ids (fewer and more ids than calls)
+        "eth_callMany" | "eth_estimateGasMany" => json!([[call.clone(), call], null, {"opReturnTxIds": vec![ZERO_HASH; rng.below(4) as usize], "bitcoinTxHexes": {}}]),
         "eth_getStorageAt" => json!([c.contract, "0x1"]),
         "eth_getCode" | "txpool_contentFrom" => json!([c.contract]),
         "eth_getTransactionReceipt" | "debug_traceTransaction" | "eth_getTransactionByHash" => json!([c.tx_hash]),
